@@ -737,7 +737,45 @@ fn mut_battery(s: &mut dyn SurfaceMut<Item = E>, x: &Expect, bp: usize, out: &mu
 // the four ownership paths
 // ---------------------------------------------------------------------------------------
 
-pub const PATHS: [&str; 4] = ["view(&S)", "view_mut", "view_owned(&mut S)", "view_owned(Box<dyn SurfaceMut>)"];
+pub const PATHS: [&str; 5] = [
+    "view(&S)",
+    "view_mut",
+    "view_owned(&mut S)",
+    "view_owned(Box<dyn SurfaceMut>)",
+    "method calls on the concrete owned-view types",
+];
+
+/// longest chain the statically typed path is expanded for (2^n monomorphic copies of the battery call)
+pub const CONCRETE_MAX: usize = 4;
+
+fn finish_concrete<S: SurfaceMut<Item = E>>(mut s: S, k: &mut dyn FnMut(&mut dyn SurfaceMut<Item = E>)) {
+    k(&mut s)
+}
+
+/// The chain written the way a caller writes it: `s.transpose().view_owned(a, b).transpose()` on values of
+/// the concrete types, so that method resolution (inherent methods of the view types included) is the
+/// caller's, not the trait object's. No type is named: whatever the calls return is passed on.
+macro_rules! concrete_chain {
+    ($s:expr, $ops:expr, $k:expr;) => {{
+        let s = $s;
+        assert!($ops.is_empty());
+        finish_concrete(s, $k)
+    }};
+    ($s:expr, $ops:expr, $k:expr; $lvl:tt $($rest:tt)*) => {{
+        let s = $s;
+        match $ops.split_first() {
+            None => finish_concrete(s, $k),
+            Some((Op::T, rest)) => {
+                let v = s.transpose();
+                concrete_chain!(v, rest, $k; $($rest)*)
+            }
+            Some((Op::V(r, c), rest)) => {
+                let v = with_sel!(*r, rs, with_sel!(*c, cs, s.view_owned(rs, cs)));
+                concrete_chain!(v, rest, $k; $($rest)*)
+            }
+        }
+    }};
+}
 
 fn chain_ref(s: &dyn Surface<Item = E>, ops: &[Op], k: &mut dyn FnMut(&dyn Surface<Item = E>)) {
     match ops.split_first() {
@@ -854,6 +892,25 @@ fn run_path(base: &Base, ops: &[Op], path: usize, x: &Expect, battery: bool, out
                     mut_battery(&mut *b, x, bp_strided, out);
                 }
             }
+            (4, Layout::Dense) => {
+                let root = dense_root(base);
+                let bp = root.data().as_ptr() as usize;
+                concrete_chain!(root, ops, &mut |s: &mut dyn SurfaceMut<Item = E>| {
+                    shape = Some(s.shape());
+                    if battery {
+                        mut_battery(s, x, bp, out)
+                    }
+                }; a b c d);
+            }
+            (4, Layout::Strided) => {
+                let root = SurfaceMutView::new(base.strided_shape(), &mut buf[..]);
+                concrete_chain!(root, ops, &mut |s: &mut dyn SurfaceMut<Item = E>| {
+                    shape = Some(s.shape());
+                    if battery {
+                        mut_battery(s, x, bp_strided, out)
+                    }
+                }; a b c d);
+            }
             _ => unreachable!(),
         }
     });
@@ -916,6 +973,9 @@ pub fn check_program_opt(base: &Base, ops: &[Op], battery: bool) -> ProgramResul
     let mut checks = 0;
     let mut shapes: Vec<Option<Shape>> = vec![];
     for path in 0..PATHS.len() {
+        if path == 4 && ops.len() > CONCRETE_MAX {
+            continue;
+        }
         let mut out = Out::default();
         let sh = run_path(base, ops, path, &x, battery, &mut out);
         shapes.push(sh);
